@@ -215,7 +215,7 @@ impl %s {
     if x12:
         apply_x12(items, x12)
     u = Unit(
-        name=name, props=['C05', 'C07'] + (['C12'] if x12 else []), pre_verus=PRE_VERUS, spec_files=['std_slices.rs', 'typexpr.rs', 'txt.rs'], prelude=prelude, items=items,
+        name=name, props=['C05', 'C07'] + (['C12'] if x12 else []), pre_verus=PRE_VERUS, spec_files=['std_slices.rs', 'seqjoin.rs', 'typexpr.rs', 'txt.rs'], prelude=prelude, items=items,
         functions=['%s::%s' % (struct, f) for f in ('format_type', 'format_simple_type', 'format_generic_type', 'format_generic_parameters',
                                                     'format_special_type', 'type_map')],
         trusted=TRUSTED_COMMON + [
